@@ -389,14 +389,24 @@ Definition total_evals (c : cfg) (s : state) : nat := fold_right (fun t a => (s_
 Definition open_handles (c : cfg) (s : state) : nat := length (filter (s_hopen s) (workers c)).
 
 Definition run_agrees (c : cfg) (tr : list ostep) (raised : bool) (cbs : list nat)
-           (files : list (list Z)) (nopen nevals : nat) : bool :=
+           (files : list (list Z)) (lens : option (list nat)) (nopen nevals : nat) : bool :=
   match follow c init tr with
   | Some s =>
       match s_main s with
       | MDeliv e =>
           Bool.eqb e raised && list_eqb Nat.eqb (s_cblog s) cbs &&
           Nat.eqb (s_nopen s) nopen && Nat.eqb (total_evals c s) nevals && Nat.eqb (open_handles c s) 0%nat &&
-          (raised || list_eqb (list_eqb Z.eqb) (map (s_files s) (pools c)) files)
+          (raised ||
+           match lens with
+           | None => list_eqb (list_eqb Z.eqb) (map (s_files s) (pools c)) files
+           | Some l =>
+               (* aligned layouts (files of several KiB): compare the file sizes with the implementation's and
+                  check that every tensor's range of the model file holds its bytes *)
+               list_eqb Nat.eqb (map (fun p => length (s_files s p)) (pools c)) l &&
+               forallb (fun t => list_eqb Z.eqb (slice (s_files s (tpool c t)) (t_off (task_of c t))
+                                                        (length (t_bytes (task_of c t))))
+                                          (t_bytes (task_of c t))) (tasks c)
+           end)
       | MWait => false
       end
   | None => false
